@@ -313,6 +313,9 @@ func solveAll(results []*UnitResult, cfg *SolverCfg) {
 	var jobs []job
 	for _, r := range results {
 		for _, o := range r.Obligations {
+			if o.Status != "" {
+				continue // decided without a solver (e.g. a function outside the verified subset)
+			}
 			jobs = append(jobs, job{o, r.Reg})
 		}
 	}
